@@ -1,4 +1,6 @@
-# harness registry for the Makefile: name -> extra objects (relative to $(B)/<variant>/)
-HARNESSES := c07_chksum
-HARNESS_c07_chksum :=
-ALL_BINS := $(B)/san/bin/c07_chksum
+# harness registry for the Makefile.  One fragment per harness in harness/mk/<name>.mk:
+#   HARNESSES += <name>
+#   HARNESS_<name> := <extra objects relative to $(B)/<variant>/, e.g. gen_utest.o eng/sim/sim.o>
+#   LDX_<name>     := <extra link flags>           (optional)
+HARNESSES :=
+include $(wildcard $(V)/harness/mk/*.mk)
